@@ -1,5 +1,7 @@
 import H2V.Props.C10Tables
 import H2V.Lemmas.HpackEnc
+import H2V.Lemmas.Huffman
+import H2V.Lemmas.HpackDec
 /-
   C10 — HPACK encoder and decoder stay in sync.  Property theorems only.
 -/
@@ -41,8 +43,45 @@ theorem reduction_signalled_first (e : Encoder) (m : Spec.HpackSync.Mon) (v : Na
     ∃ u, Spec.HpackSync.leadingSizeUpdate bytes = some u ∧ u ≤ v :=
   Lemmas.HpackEnc.reduction_signalled_first e m v fs hs hv e' bytes henc
 
+/-- **… including h2's own decoder.** The monitor of `roundtrip_history` is the RFC 7541 reference;
+    this ties the encoder's output to the *mirror of `hpack/decoder.rs`* as well: whenever the
+    reference accepts an emitted block as `fields` (which `roundtrip_history` gives for every
+    history) and h2's own decoder, in a state whose abstraction is the reference's state, accepts
+    the block, it reads back exactly the submitted fields in order and its dynamic table is again
+    the reference's — so the two stay in lock-step for the next block (C10 ∘ C11 `decode_sound`).
+    That h2's decoder does accept is not claimed here (it refuses some blocks the RFC allows, e.g.
+    an empty field name); the byte-exact correspondence runs cover that direction. -/
+theorem own_decoder_reads_back_the_submitted_fields
+    (m m' : Spec.HpackSync.Mon) (fields : List Spec.Hpack.Field) (bytes : Bytes)
+    (hblock : m.block fields bytes = .ok m')
+    (d : Decoder) (habs : Lemmas.HpackDec.abs d = m.st)
+    (hi : Lemmas.HpackDec.Table.Inv d.table) (hv : Bytes.Valid bytes) (hc : d.continuing = false)
+    (hr : (d.decode bytes).result = .ok ()) :
+    (d.decode bytes).fields = fields ∧ Lemmas.HpackDec.abs (d.decode bytes).dec = m'.st := by
+  have hs := (Lemmas.HpackDec.decode_sound (fun bs h => Lemmas.Huffman.decode_eq_spec bs h) d bytes hi hv hc hr).1
+  rw [habs] at hs
+  unfold Spec.HpackSync.Mon.block at hblock
+  simp only [hs] at hblock
+  repeat' split at hblock
+  all_goals first | (simp at hblock; done) | skip
+  all_goals
+    rename_i hf _ _
+    simp only [Except.ok.injEq] at hblock
+    subst hblock
+    exact ⟨by simpa using hf, rfl⟩
+
 -- non-vacuity: a concrete history (shrink to 100, two blocks with a repeated and a nameless field) is well-formed
 example : WF [.setMax 100, .block [⟨([120, 45, 97], [49]), false, false⟩, ⟨([120, 45, 97], [50]), false, true⟩],
               .block [⟨([120, 45, 97], [49]), false, false⟩]] := by decide
+
+-- non-vacuity of `own_decoder_reads_back_the_submitted_fields`: from the initial states the abstraction
+-- agrees, and a block with an indexed field and a literal that enters the table is accepted by both
+open H2V.Model.Hpack in
+example : Lemmas.HpackDec.abs (Decoder.new 4096) = (Spec.HpackSync.Mon.init 4096).st := by decide +kernel
+open H2V.Model.Hpack in
+example : (match (Spec.HpackSync.Mon.init 4096).block ((Decoder.new 4096).decode [130, 64, 1, 97, 1, 98]).fields
+              [130, 64, 1, 97, 1, 98] with | .ok _ => true | .error _ => false) = true ∧
+    (match ((Decoder.new 4096).decode [130, 64, 1, 97, 1, 98]).result with
+      | .ok _ => true | .error _ => false) = true := by decide +kernel
 
 end H2V.Props.C10
